@@ -58,34 +58,38 @@ RULE = ("case family = index % 4.  pregroup: vocabulary of 2-6 words with "
         "single atom. ccg: 6 random category strings, three random trees of depth "
         "<= 4 with fa/ba/fc/unary/other rules and features; non-trivial = tree "
         "with >= 3 rule nodes.  Distinct by the repr of the generated inputs.")
-SIZES = {"quick": (16, 190), "thorough": (16, 3600)}
+SIZES = {"quick": (16, 160), "thorough": (16, 3000)}
 TIMEOUT = {"quick": 600, "thorough": 5400}
-COVER = {
-    "discopy.grammar.pregroup:eager_parse": 0.95,
-    "discopy.grammar.pregroup:brute_force": 0.95,
-    "discopy.grammar.cfg:CFG.generate": 0.95,
-    "discopy.biclosed:Functor.__call__": 0.95,
+COVER = {     # measured: every anchored line is hit, on every seed
+    "discopy.grammar.pregroup:eager_parse": 0.9,
+    "discopy.grammar.pregroup:brute_force": 0.85,
+    "discopy.grammar.cfg:CFG.generate": 0.9,
+    "discopy.biclosed:Functor.__call__": 0.9,
     "discopy.biclosed:Curry.__init__": 0.9,
-    "discopy.rigid:Diagram.fa": 0.95,
-    "discopy.rigid:Diagram.ba": 0.95,
-    "discopy.rigid:Diagram.fc": 0.95,
-    "discopy.rigid:Diagram.bc": 0.95,
-    "discopy.rigid:Diagram.fx": 0.95,
-    "discopy.rigid:Diagram.bx": 0.95,
-    "discopy.rigid:Diagram.curry": 0.95,
-    "discopy.grammar.ccg:cat2ty": 0.95,
-    "discopy.grammar.ccg:cat2ty.split": 0.95,
-    "discopy.grammar.ccg:tree2diagram": 0.95,
+    "discopy.rigid:Diagram.fa": 0.9,
+    "discopy.rigid:Diagram.ba": 0.9,
+    "discopy.rigid:Diagram.fc": 0.9,
+    "discopy.rigid:Diagram.bc": 0.9,
+    "discopy.rigid:Diagram.fx": 0.9,
+    "discopy.rigid:Diagram.bx": 0.9,
+    "discopy.rigid:Diagram.curry": 0.85,
+    "discopy.grammar.ccg:cat2ty": 0.85,
+    "discopy.grammar.ccg:cat2ty.split": 0.85,
+    "discopy.grammar.ccg:tree2diagram": 0.9,
 }
-MIN_EVALS = {
-    "quick": {"pregroup-parse-shape": 1500, "cfg-sentence-is-derivation": 1500,
-              "functor-box-image": 4000, "functor-diagram-image": 400,
-              "cat2ty-agrees-with-parser": 3000, "ccg-tree-rigid-image": 500},
-    "thorough": {"pregroup-parse-shape": 40000,
-                 "cfg-sentence-is-derivation": 40000,
-                 "functor-box-image": 100000, "functor-diagram-image": 10000,
-                 "cat2ty-agrees-with-parser": 80000,
-                 "ccg-tree-rigid-image": 12000}}
+MIN_EVALS = {     # about 70 % of the smallest count measured over seeds 0..4
+    "quick": {"pregroup-parse-shape": 2200,
+              "cfg-sentence-is-derivation": 6300,
+              "functor-box-image": 7400, "functor-diagram-image": 1500,
+              "functor-object-map": 2600,
+              "cat2ty-agrees-with-parser": 10500,
+              "ccg-tree-diagram": 1300, "ccg-tree-rigid-image": 1300},
+    "thorough": {"pregroup-parse-shape": 55000,
+                 "cfg-sentence-is-derivation": 120000,
+                 "functor-box-image": 140000, "functor-diagram-image": 28000,
+                 "functor-object-map": 50000,
+                 "cat2ty-agrees-with-parser": 200000,
+                 "ccg-tree-diagram": 25000, "ccg-tree-rigid-image": 25000}}
 ASSUMPTIONS = [
     "NotImplementedError from eager_parse is a refusal the statement allows "
     "(only returned diagrams are constrained); it is counted, and compared "
